@@ -1,6 +1,7 @@
 import RdpModel.Wire.Write
 import RdpModel.Spec.Deframe
 import Driver.C13
+import Driver.Shape
 namespace Rdp.Driver
 open Rdp Rdp.Spec
 
@@ -57,6 +58,22 @@ def c14 (toks : List String) : String :=
   | ["tpkt_writes", ps, w] =>
     match (ps.splitOn "/").mapM parsePayload, parseWSched w with
     | some ps, some w => c14multi ps w ++ "\t-"
+    | _, _ => "bad-case"
+  | ["link_write", p, w] =>
+    -- `Link::write` itself: no frame limit; oracle: every byte, until the stream itself refuses
+    match parsePayload p, parseWSched w with
+    | some p, some w =>
+      let (ok, out) := specDeliver (p.length + 1) p w []
+      showW (Link.write p ⟨[], w⟩) ++ "\t" ++ (if ok then "ok " else "E ") ++ showOut out
+    | _, _ => "bad-case"
+  | ["tpkt_write_msg", sh, w] =>
+    -- a structured message: its serialisation (C18 model) framed and delivered
+    match parseShape sh, parseWSched w with
+    | some m, some w =>
+      match write m with
+      | .ok b => showW (Tpkt.write b ⟨[], w⟩) ++ "\t" ++ specWrite false b w
+      | .err _ => "E out=-\t-"
+      | .panic _ => "P\t-"
     | _, _ => "bad-case"
   | [op, p, w] =>
     match parsePayload p, parseWSched w with
